@@ -1099,7 +1099,33 @@ func (e *Exec) valueEq(a, b Value) *Term {
 	case BoolV:
 		return e.P.Eq(x.T, b.(BoolV).T)
 	case StrV:
-		return e.P.Cmp("=", e.strTerm(x), e.strTerm(b.(StrV)))
+		y := b.(StrV)
+		if x.Sym == nil && y.Sym == nil {
+			return e.P.Bool(x.C == y.C)
+		}
+		return e.P.Cmp("=", e.strTerm(x), e.strTerm(y))
+	case *ArrayV:
+		y := b.(*ArrayV)
+		r := e.P.Bool(true)
+		for i := range x.E {
+			r = e.P.And(r, e.valueEq(x.E[i], y.E[i]))
+		}
+		return r
+	case *StructV:
+		y := b.(*StructV)
+		r := e.P.Bool(true)
+		for i := range x.F {
+			r = e.P.And(r, e.valueEq(x.F[i], y.F[i]))
+		}
+		return r
+	case IfaceV:
+		return e.ifaceEq(x, b.(IfaceV))
+	case FloatV:
+		return e.P.Bool(x.F == b.(FloatV).F)
+	case TimeV:
+		return e.P.Cmp("=", x.NS, b.(TimeV).NS)
+	case ChanV:
+		return e.P.Bool(x.C == b.(ChanV).C)
 	}
 	panic(unsupported{fmt.Sprintf("valueEq on %T", a)})
 }
@@ -1144,6 +1170,12 @@ func (e *Exec) convert(v Value, from, to types.Type) Value {
 			}
 			return OpaqueV{"float"}
 		case types.String:
+			if iv, ok := v.(IntV); ok { // string(rune)
+				return StrV{C: string(rune(e.concInt(iv)))}
+			}
+			if sv, ok := v.(StrV); ok {
+				return sv
+			}
 			if sl, ok := v.(SliceV); ok {
 				bs := make([]byte, sl.Len)
 				for i := 0; i < sl.Len; i++ {
@@ -1154,6 +1186,9 @@ func (e *Exec) convert(v Value, from, to types.Type) Value {
 		}
 	}
 	if _, ok := to.Underlying().(*types.Slice); ok {
+		if sl, ok := v.(SliceV); ok {
+			return sl
+		}
 		if s, ok := v.(StrV); ok && s.Sym == nil {
 			arr := &ArrayV{E: make([]Value, len(s.C))}
 			for i := range arr.E {
@@ -1249,6 +1284,62 @@ func (e *Exec) builtin(name string, args []Value) Value {
 			arr.E[i] = zeroLike(z)
 		}
 		return SliceV{Arr: e.newObj(arr), Len: n, Cap: nc}
+	case "copy":
+		d := args[0].(SliceV)
+		n := 0
+		switch src := args[1].(type) {
+		case SliceV:
+			n = min(d.Len, src.Len)
+			tmp := make([]Value, n)
+			for i := 0; i < n; i++ {
+				tmp[i] = copyValue(src.Arr.V.(*ArrayV).E[src.Off+i])
+			}
+			for i := 0; i < n; i++ {
+				d.Arr.V.(*ArrayV).E[d.Off+i] = tmp[i]
+			}
+		case StrV:
+			if src.Sym != nil {
+				panic(unsupported{"copy from symbolic string"})
+			}
+			n = min(d.Len, len(src.C))
+			for i := 0; i < n; i++ {
+				d.Arr.V.(*ArrayV).E[d.Off+i] = IntV{T: e.P.BV(8, uint64(src.C[i]))}
+			}
+		default:
+			panic(unsupported{fmt.Sprintf("copy from %T", args[1])})
+		}
+		return IntV{e.P.BV(64, uint64(n)), true}
+	case "min", "max":
+		acc := args[0]
+		for _, a := range args[1:] {
+			var lt Value
+			if name == "min" {
+				lt = e.binop(token.LSS, a, acc, nil)
+			} else {
+				lt = e.binop(token.GTR, a, acc, nil)
+			}
+			switch x := acc.(type) {
+			case IntV:
+				acc = IntV{T: e.P.Ite(lt.(BoolV).T, a.(IntV).T, x.T), Signed: x.Signed}
+			default:
+				if e.decide(lt.(BoolV).T) {
+					acc = a
+				}
+			}
+		}
+		return acc
+	case "clear":
+		switch x := args[0].(type) {
+		case MapV:
+			if x.M != nil {
+				x.M.keys, x.M.vals = nil, nil
+			}
+		case SliceV:
+			for i := 0; i < x.Len; i++ {
+				x.Arr.V.(*ArrayV).E[x.Off+i] = zeroLike(x.Arr.V.(*ArrayV).E[x.Off+i])
+			}
+		}
+		return nil
 	case "close":
 		c := args[0].(ChanV)
 		if c.C == nil || c.C.closed {
